@@ -147,6 +147,87 @@ class LineTracer:
 
 
 # --------------------------------------------------------------------------------------------
+# cooperative locks: what celpy code gets when it asks `threading` for a Lock / RLock while the
+# simulator re-executes its modules (kit.fresh_celpy).  Outside a scheduled run, and for threads
+# the scheduler does not own, they behave exactly like the real thing.
+
+CURRENT: List[Any] = [None]  # the Scheduler whose run() is in progress
+_real_lock = threading.Lock
+
+
+class SimLock:
+    def __init__(self) -> None:
+        self._real = _real_lock()
+
+    def acquire(self, blocking: bool = True, timeout: float = -1) -> bool:
+        sched = CURRENT[0]
+        ws = sched.current_worker() if sched is not None else None
+        if ws is None:
+            return self._real.acquire(blocking, timeout)
+        while True:
+            if self._real.acquire(False):
+                return True
+            if not blocking:
+                return False
+            sched.block_on(ws, self)
+
+    def release(self) -> None:
+        self._real.release()
+        sched = CURRENT[0]
+        if sched is not None:
+            sched.lock_released(self)
+
+    def locked(self) -> bool:
+        return self._real.locked()
+
+    __enter__ = acquire
+
+    def __exit__(self, *exc: Any) -> None:
+        self.release()
+
+
+class SimRLock:
+    def __init__(self) -> None:
+        self._lock = SimLock()
+        self._owner: Optional[int] = None
+        self._count = 0
+
+    def acquire(self, blocking: bool = True, timeout: float = -1) -> bool:
+        me = threading.get_ident()
+        if self._owner == me:
+            self._count += 1
+            return True
+        ok = self._lock.acquire(blocking, timeout)
+        if ok:
+            self._owner = me
+            self._count = 1
+        return ok
+
+    def release(self) -> None:
+        if self._owner != threading.get_ident():
+            raise RuntimeError("cannot release un-acquired lock")
+        self._count -= 1
+        if self._count == 0:
+            self._owner = None
+            self._lock.release()
+
+    __enter__ = acquire
+
+    def __exit__(self, *exc: Any) -> None:
+        self.release()
+
+
+class ThreadingProxy:
+    """Stands in for the `threading` module while celpy's module code is executed."""
+
+    Lock = SimLock
+    RLock = SimRLock
+
+    def __getattr__(self, name: str) -> Any:
+        return getattr(threading, name)
+
+
+# --------------------------------------------------------------------------------------------
 # policies
 
 
@@ -251,9 +332,12 @@ class ExplicitPolicy(Policy):
     def __init__(self, switches: List[List[int]]) -> None:
         self.at: Dict[Tuple[int, int], int] = {}
         self.start: Optional[int] = None
+        self.blocks: Dict[int, List[int]] = {}
         for tid, local, nxt, *_ in switches:
             if local == -2:
                 self.start = nxt
+            elif local == -3:
+                self.blocks.setdefault(tid, []).append(nxt)
             else:
                 self.at.setdefault((tid, local), nxt)
 
@@ -269,7 +353,11 @@ class ExplicitPolicy(Policy):
         return None
 
     def on_exit(self, sched: "Scheduler", ws: "Worker", runnable: List[int]) -> int:
-        nxt = self.at.get((ws.tid, -1))
+        if ws.blocked_on is not None:
+            q = self.blocks.get(ws.tid)
+            nxt = q.pop(0) if q else None
+        else:
+            nxt = self.at.get((ws.tid, -1))
         if nxt is not None and nxt in runnable:
             return nxt
         return min(runnable)
@@ -309,6 +397,8 @@ class Worker:
         self.error: Optional[str] = None
         self.abort_at: Optional[int] = None  # local step at which SimAbort is raised (once)
         self.aborted_site: Optional[str] = None
+        self.blocked_on: Any = None  # a SimLock this worker waits for
+        self.blocks = 0
 
 
 class Scheduler:
@@ -327,6 +417,8 @@ class Scheduler:
         self._done = threading.Event()
         self.current: Optional[int] = None
         self.hot_switches = 0
+        self.lock_blocks = 0
+        self.deadlock = False
         self._by_ident: Dict[int, Worker] = {}
 
     def add(self, tid: int, fn: Callable[[], None], abort_at: Optional[int] = None) -> None:
@@ -335,7 +427,43 @@ class Scheduler:
         self.workers[tid] = w
 
     def runnable(self) -> List[int]:
-        return [t for t, w in self.workers.items() if not w.done]
+        return [t for t, w in self.workers.items() if not w.done and w.blocked_on is None]
+
+    # -- cooperative locks --------------------------------------------------------------------
+    def current_worker(self) -> Optional[Worker]:
+        ws = self._by_ident.get(threading.get_ident())
+        if ws is None or ws.done or not ws.started:
+            return None
+        return ws
+
+    def block_on(self, ws: Worker, lock: Any) -> None:
+        """ws cannot take `lock` (its holder is parked): hand the baton on until it is released."""
+        ws.blocked_on = lock
+        ws.blocks += 1
+        rs = sorted(self.runnable())
+        if not rs:
+            # every live thread waits for a lock: a genuine deadlock of the system under test
+            self.deadlock = True
+            self.livelock = True
+            ws.blocked_on = None
+            for w in self.workers.values():
+                if not w.done and w is not ws:
+                    w.blocked_on = None
+            raise SimLivelock()
+        nxt = self.policy.on_exit(self, ws, rs)
+        other = self.workers[nxt]
+        self.switches.append([ws.tid, -3, nxt, "blocked-on-lock", other.last_site])
+        self.lock_blocks += 1
+        self.current = nxt
+        other.sem.release()
+        ws.sem.acquire()
+        if self.livelock:
+            raise SimLivelock()
+
+    def lock_released(self, lock: Any) -> None:
+        for w in self.workers.values():
+            if w.blocked_on is lock:
+                w.blocked_on = None
 
     # -- tracing ------------------------------------------------------------------------------
     def _on_line(self, code: Any, line: int) -> Any:
@@ -388,6 +516,13 @@ class Scheduler:
             ws.done = True
             ws.last_site = "exit"
             rs = self.runnable()
+            if not rs and any(not w.done for w in self.workers.values()):
+                # the remaining threads all wait for locks nobody will release
+                self.deadlock = True
+                self.livelock = True
+                for w in self.workers.values():
+                    w.blocked_on = None
+                rs = self.runnable()
             if rs:
                 nxt = self.policy.on_exit(self, ws, sorted(rs))
                 other = self.workers[nxt]
@@ -403,9 +538,11 @@ class Scheduler:
         _claim_tool()
         _MON.register_callback(TOOL_ID, _MON.events.LINE, self._on_line)
         _MON.set_events(TOOL_ID, _MON.events.LINE)
+        CURRENT[0] = self
         try:
             self._run(tids, timeout)
         finally:
+            CURRENT[0] = None
             _MON.set_events(TOOL_ID, 0)
             _MON.register_callback(TOOL_ID, _MON.events.LINE, None)
 
